@@ -663,7 +663,7 @@ def plan(checker, tier, seed):
     mid = [(2, 3), (3, 2)]
     ex_jobs = []
     # --- gen_dfs: finite, every execution
-    dfs_shapes = tiny + mid + [(3, 3), (2, 4), (4, 2)] + ([(3, 4), (4, 3), (2, 5), (5, 2)] if thorough else [])
+    dfs_shapes = tiny + mid + [(3, 3), (2, 4), (4, 2), (3, 4), (4, 3)] + ([(2, 5), (5, 2), (1, 6), (6, 1)] if thorough else [])
     for sh in dfs_shapes:
         for kw in dfs_kwargs_small(*sh):
             ex_jobs.append(enum_job(checker, "gen_dfs", sh, kw))
@@ -674,13 +674,18 @@ def plan(checker, tier, seed):
     for sh in prim_shapes:
         for kw in dfs_kwargs_small(*sh):
             ex_jobs.append(enum_job(checker, "gen_prim", sh, kw, split=sh[0] * sh[1] >= 6))
-    prim33 = [{}, {"start_coord": (2, 2)}, {"do_forks": False}, {"accessible_cells": 4}, {"accessible_cells": 0.5}, {"max_tree_depth": 4}, {"max_tree_depth": 0.5}]
+    # 3x3: with default arguments 33.0 million executions (1.13 M from a corner start, 6.06 M from an edge start, 19.7 M from the centre)
+    prim33 = [{"do_forks": False}, {"accessible_cells": 4}, {"accessible_cells": 5}, {"accessible_cells": 0.5}, {"max_tree_depth": 0.5}]
+    prim33_budget = 14
     if thorough:
-        for kw in prim33:
-            ex_jobs.append(enum_job(checker, "gen_prim", (3, 3), kw, split=True, want=3000 if not (set(kw) - {"start_coord"}) else 200))
+        prim33 += [{"max_tree_depth": 4}, {"start_coord": (0, 0)}, {"start_coord": (2, 2)}]
+    for kw in prim33:
+        ex_jobs.append(enum_job(checker, "gen_prim", (3, 3), kw, split=True, want=3000 if "start_coord" in kw else 100))
+    if thorough:
+        ex_jobs.append(enum_job(checker, "gen_prim", (3, 3), {}, budget=prim33_budget, split=True, want=3000))
     # --- gen_wilson: infinite tree, cut at a number of draws that have more than one alternative
-    wil = {sh: (18 if thorough else 14) for sh in tiny}
-    wil.update({sh: (14 if thorough else 11) for sh in mid})
+    wil = {sh: (18 if thorough else 15) for sh in tiny}
+    wil.update({sh: (14 if thorough else 12) for sh in mid})
     if thorough:
         wil[(3, 3)] = 13
     for sh, b in wil.items():
@@ -710,7 +715,8 @@ def plan(checker, tier, seed):
         "EVERY random execution (depth-first walk over all decision scripts of the scripted random source; each draw records its number of alternatives) of: "
         f"gen_dfs on {_fmt(dfs_shapes)} x {len(dfs_kwargs_small(3, 3))} keyword settings (accessible_cells int/float, max_tree_depth int/float, do_forks, start_coord, shape as tuple/ndarray; randomized_stack=True up to 6 cells); "
         f"gen_prim on {_fmt(prim_shapes)} x the same settings"
-        + (f", and every execution on 3x3 for the settings {prim33}" if thorough else " (3x3 only seeded in this tier: ~4.5 million executions with default arguments)")
+        + f", and every execution on 3x3 for the settings {prim33}"
+        + (f"; 3x3 with default arguments (33.0 million executions) cut after {prim33_budget} draws with >1 alternative" if thorough else "; 3x3 with default arguments (33.0 million executions) only seeded in this tier")
         + "; gen_wilson (infinite tree) cut after N draws with >1 alternative, N = "
         + ", ".join(f"{r}x{c}:{b}" for (r, c), b in wil.items())
         + " (cut branches are counted, nothing is checked on them); "
